@@ -68,7 +68,7 @@ def e1_plan(tier):
         add(all_shapes(2), 3, kinds=deep2)
         add(all_shapes(2), 2, kinds=[k for k in kinds_for(2) if k not in deep2])
         add(all_shapes(3), 2)
-        add([(2, 1, 2)], 3, kinds=[("C", 2, 0), ("T", 2, 0)])
+        add([(2, 1, 2)], 3, kinds=[("T", 2, 0)])
         add([(2, 1, 3, 2)], 2, kinds=[("C", 2, 0), ("T", 2, 1)])
     else:
         add(all_shapes(1), 2)
@@ -279,8 +279,8 @@ def run(ctx):
         "payloads are small distinct integers (exact float arithmetic, comparison with ==); VERIF_SEED permutes them",
         "states behind orthogonalize/compress/hosvd are compared with 1e-12 * magnitude bound of the representation",
         "depth bound: all sequences to depth %d for orders 1-2%s; deeper histories are not covered"
-        % (3 if thorough else 2, ", depth 2 for order 3 (depth 3 for two order-3 seeds), depth 2 for four order-4 seeds, "
-           "depth 1 (extended index alphabet) for every shape of order 1-4" if thorough else
+        % (3 if thorough else 2, ", depth 2 for order 3 (depth 3 for one order-3 Tucker seed), depth 2 for two order-4 seeds, "
+           "depth 1 (extended index alphabet) for every shape of order 1-3 and the 31 order-4 shapes with sum <= 7" if thorough else
            ", depth 2 for three order-3 shapes, depth 1 (extended index alphabet) for every shape of order 1-3"),
         "left operand of + and - is always a tensor class; CanonicalTensor/TuckerTensor + TensorSum/TensorProd may answer "
         "with their documented TypeError('cannot add ...')",
